@@ -312,9 +312,15 @@ def option_split(body, call_bb):
     payload = [x for x in found if x[1] not in ((), (".branch",))]
     use = payload or found
     use = [i for i, _ in use if not any(j != i and body.dominates(j, i) for j, _ in use)]
+    paths = dict(found)
     for sw in use:
-        none += discr_edges(body, sw, 0)
-        some += discr_edges(body, sw, 1)
+        if paths.get(sw) == (".branch",):
+            # Option through `?`: ControlFlow::Continue (= Some) is variant 0, Break (= None) is 1
+            some += discr_edges(body, sw, 0)
+            none += discr_edges(body, sw, 1)
+        else:
+            none += discr_edges(body, sw, 0)
+            some += discr_edges(body, sw, 1)
     return some, none
 
 
@@ -613,3 +619,47 @@ def copy_chain_locals(body, op, depth=0):
         if idx < len(rv["fields"]):
             out |= copy_chain_locals(body, rv["fields"][idx], depth + 1)
     return out
+
+
+# ------------------------------------------------------------------------------------------
+# constant folding of an operand (for masks written as expressions, e.g. u64::MAX - 1)
+# ------------------------------------------------------------------------------------------
+
+
+def const_value(body, op, bits=64, _depth=0):
+    """integer value of an operand if it is a compile-time constant expression, else None"""
+    mask = (1 << bits) - 1
+    k = op.get("k")
+    if k is not None:
+        v = k.get("v")
+        return v & mask if isinstance(v, int) else None
+    pl = op_place(op)
+    if pl is None or _depth > 12:
+        return None
+    proj = pl["p"]
+    defs = body.defs().get(pl["l"], [])
+    if len(defs) != 1 or defs[0][0] != "assign" or pl["l"] in body.mut_borrowed():
+        return None
+    rv = defs[0][3]["rv"]
+    if proj:
+        # (x WithOverflow y).0
+        if len(proj) == 1 and isinstance(proj[0], dict) and proj[0].get("f") == 0 and rv["r"] == "bin" and rv["op"].endswith("WithOverflow"):
+            a, b = const_value(body, rv["a"], bits, _depth + 1), const_value(body, rv["b"], bits, _depth + 1)
+            if a is None or b is None:
+                return None
+            base = rv["op"][: -len("WithOverflow")]
+            return {"Add": a + b, "Sub": a - b, "Mul": a * b}.get(base, 0) & mask
+        return None
+    if rv["r"] in ("use", "cast"):
+        return const_value(body, rv["o"], bits, _depth + 1)
+    if rv["r"] == "un" and rv["op"] == "Not":
+        a = const_value(body, rv["a"], bits, _depth + 1)
+        return None if a is None else (~a) & mask
+    if rv["r"] == "bin":
+        a, b = const_value(body, rv["a"], bits, _depth + 1), const_value(body, rv["b"], bits, _depth + 1)
+        if a is None or b is None:
+            return None
+        op_ = rv["op"].replace("Unchecked", "")
+        table = {"Add": a + b, "Sub": a - b, "BitAnd": a & b, "BitOr": a | b, "BitXor": a ^ b, "Shl": a << (b & 127), "Shr": a >> (b & 127), "Mul": a * b}
+        return table[op_] & mask if op_ in table else None
+    return None
